@@ -1,11 +1,50 @@
-(* C19 -- App Protect arbitration.  Only statements, each closed by [exact], each followed by
-   Print Assumptions. *)
-From Coq Require Import List ZArith String Bool.
-From NIC Require Import Base.SMap AppProtect.Model AppProtect.Spec AppProtect.ProofsRefuted.
+(* C19 -- App Protect arbitration: one signature set per tag, policy usable iff satisfiable, DoS
+   protected resources usable iff their references resolve; order-independent; changes reported.
+   Only statements, each closed by [exact], each followed by Print Assumptions.
+
+   Model:  AppProtect/Model.v  (step : state -> event -> state * output, run en evs = fold_left)
+   Spec:   AppProtect/Spec.v   (answers as a function of the current object set only)
+   K1_hist evs : after every event of the history the stored APUserSig objects have distinct uids
+                 (API-server assumption K1; nothing else is assumed about the history: updates may
+                 change tags, timestamps, validity; deletes may hit absent keys). *)
+From Coq Require Import List ZArith String Bool Permutation.
+From NIC Require Import Base.SMap AppProtect.Model AppProtect.Spec AppProtect.ProofsBase AppProtect.ProofsSig
+     AppProtect.ProofsInv AppProtect.ProofsAnswers AppProtect.ProofsReport AppProtect.ProofsReport2
+     AppProtect.ProofsFinal AppProtect.ProofsRefuted.
 Import ListNotations.
 Open Scope string_scope.
 Open Scope Z_scope.
 
+(* The invariant, as an equality of states: after EVERY history the two configurations are in
+   exactly the state rebuilt from scratch from the current objects. *)
+Theorem C19_state_is_rebuilt :
+  forall (en : bool) (evs : list event), K1_hist evs -> run en evs = spec_state en (final_objects evs).
+Proof. exact run_is_spec_state. Qed.
+Print Assumptions C19_state_is_rebuilt.
+
+(* FULL STATEMENT (false, see C19_revtime_refuted):
+     forall en evs, K1_hist evs ->
+       (forall kd key, get_app_resource (waf (run en evs)) kd key = spec_answer acceptable (final_objects evs) kd key) /\ ...
+   Proved: the same with the revision-time test as coded ([acceptable_as_coded] differs from
+   [acceptable] only for a requirement without bounds against a dated signature) ... *)
+Theorem C19_flags_are_spec_as_coded :
+  forall (en : bool) (evs : list event), K1_hist evs ->
+    (forall kd key, get_app_resource (waf (run en evs)) kd key =
+                    spec_answer acceptable_as_coded (final_objects evs) kd key) /\
+    (forall ns nm, get_valid_dos_ex (dos (run en evs)) ns nm = spec_dos_answer en (final_objects evs) ns nm).
+Proof. exact flags_are_spec_as_coded. Qed.
+Print Assumptions C19_flags_are_spec_as_coded.
+
+(* ... and the full statement for every history whose final objects contain no pair
+   (requirement with a tag and no bound, signature with that tag and a revision time). *)
+Theorem C19_flags_are_spec :
+  forall (en : bool) (evs : list event), K1_hist evs -> f21_free (final_objects evs) ->
+    (forall kd key, get_app_resource (waf (run en evs)) kd key = spec_answer acceptable (final_objects evs) kd key) /\
+    (forall ns nm, get_valid_dos_ex (dos (run en evs)) ns nm = spec_dos_answer en (final_objects evs) ns nm).
+Proof. exact flags_are_spec. Qed.
+Print Assumptions C19_flags_are_spec.
+
+(* Without that restriction the property text fails of the faithful model: F21. *)
 Theorem C19_revtime_refuted :
   exists (evs : list event) (k ks : string),
     pol_class w_pol = ENone /\
@@ -16,3 +55,128 @@ Theorem C19_revtime_refuted :
     get_app_resource (waf (run true (rev evs))) KPolicy k = AErr EMissing.
 Proof. exact revtime_refuted. Qed.
 Print Assumptions C19_revtime_refuted.
+
+(* Among the well-formed signatures declaring the same tag exactly one -- the oldest -- is in
+   force, the others answer "duplicate tag set". *)
+Theorem C19_one_in_force_per_tag :
+  forall (en : bool) (evs : list event), K1_hist evs ->
+    let S := ob_sig (final_objects evs) in
+    forall k0 o0, In (k0, o0) S -> sig_competes o0 = true ->
+    exists k o, In (k, o) S /\ sig_competes o = true /\ so_tag o = so_tag o0 /\
+                get_app_resource (waf (run en evs)) KUserSig k = AOk /\
+                forall k' o', In (k', o') S -> k' <> k -> sig_competes o' = true -> so_tag o' = so_tag o0 ->
+                              older o o' = true /\
+                              get_app_resource (waf (run en evs)) KUserSig k' = AErr EDup.
+Proof. exact one_in_force_per_tag. Qed.
+Print Assumptions C19_one_in_force_per_tag.
+
+(* Which resources are in force depends only on the current objects: two histories (in
+   particular two permutations) with the same final objects leave the SAME state, hence the same
+   answers now and the same behaviour on every later event. *)
+Theorem C19_order_independent :
+  forall (en : bool) (evs1 evs2 : list event),
+    K1_hist evs1 -> K1_hist evs2 -> final_objects evs1 = final_objects evs2 -> run en evs1 = run en evs2.
+Proof. exact order_independent_state. Qed.
+Print Assumptions C19_order_independent.
+
+(* The winner of a tag does not depend on the order in which Go's map iteration presents the
+   group to sort.Sort, nor on the sorting algorithm: all sorted permutations coincide (K1). *)
+Theorem C19_winner_independent_of_iteration_order :
+  forall l l' : list (string * UserSigEx),
+    NoDup (map uid_of l) -> Permutation l l' -> sig_sort l = sig_sort l'.
+Proof. exact sig_sort_perm_invariant. Qed.
+Print Assumptions C19_winner_independent_of_iteration_order.
+
+(* Every change of usability of a policy, log configuration or DoS protected resource appears in
+   the returned change list with the right operation, and with a problem when the resource is
+   still stored but no longer usable -- after every history, for every next event. *)
+Theorem C19_changes_reported :
+  forall (en : bool) (evs : list event) (ev : event) (kd : kind) (key : string),
+    K1_hist evs -> kd = KPolicy \/ kd = KLogConf \/ kd = KDosPR ->
+    let st := run en evs in
+    usable st kd key <> usable (fst (step st ev)) kd key ->
+    In (chg (op_for (usable (fst (step st ev)) kd key)) kd key) (o_changes (snd (step st ev))) /\
+    (stored (fst (step st ev)) kd key = true -> usable (fst (step st ev)) kd key = false ->
+     exists c, In (prob kd key c) (o_problems (snd (step st ev)))).
+Proof. exact changes_reported. Qed.
+Print Assumptions C19_changes_reported.
+
+(* Signatures are reported through UserSigChange.UserSigs, the complete list of signatures in
+   force after the operation.  FULL STATEMENT (false, see C19_usersig_report_refuted): for every
+   signature operation.  Proved: for every signature operation except DeleteUserSig of a key that
+   is not stored. *)
+Theorem C19_usersig_list_reported_partial :
+  forall (en : bool) (evs : list event) (ev : event), K1_hist evs ->
+    let st := run en evs in
+    sig_op_effective st ev = true ->
+    exists l, o_usersigs (snd (step st ev)) = Some l /\
+              forall key, In key l <-> usable (fst (step st ev)) KUserSig key = true.
+Proof. exact usersig_list_reported. Qed.
+Print Assumptions C19_usersig_list_reported_partial.
+
+Theorem C19_usersig_report_refuted :
+  exists (evs : list event) (ev : event) (k : string),
+    let st := run true evs in
+    get_app_resource (waf (fst (step st ev))) KUserSig k = AOk /\
+    fst (step st ev) = st /\
+    o_usersigs (snd (step st ev)) = Some [].
+Proof. exact usersig_report_refuted. Qed.
+Print Assumptions C19_usersig_report_refuted.
+
+(* The deletion of an absent key changes no flag at all (only its report is wrong) ... *)
+Theorem C19_delete_absent_changes_nothing :
+  forall (st : state) (k : string), stored st KUserSig k = false ->
+    fst (step st (EvDelUserSig k)) = st /\ o_usersigs (snd (step st (EvDelUserSig k))) = Some [].
+Proof. exact usersig_delete_absent. Qed.
+Print Assumptions C19_delete_absent_changes_nothing.
+
+(* ... operations on the other five kinds never change which signatures are in force ... *)
+Theorem C19_other_events_keep_signatures :
+  forall (st : state) (ev : event) (key : string), is_sig_event ev = false ->
+    usable (fst (step st ev)) KUserSig key = usable st KUserSig key /\ o_usersigs (snd (step st ev)) = None.
+Proof. exact other_events_keep_sigs. Qed.
+Print Assumptions C19_other_events_keep_signatures.
+
+(* ... and a signature that stays stored and is not in force after a signature operation, having
+   been in force before or being the object of the operation, is named in a problem. *)
+Theorem C19_usersig_problems_reported :
+  forall (en : bool) (evs : list event) (ev : event) (key : string), K1_hist evs ->
+    let st := run en evs in
+    is_sig_event ev = true ->
+    stored (fst (step st ev)) KUserSig key = true ->
+    usable (fst (step st ev)) KUserSig key = false ->
+    (usable st KUserSig key = true \/ exists o, ev = EvUserSig key o) ->
+    exists c, In (prob KUserSig key c) (o_problems (snd (step st ev))).
+Proof. exact usersig_problems_reported. Qed.
+Print Assumptions C19_usersig_problems_reported.
+
+(* ------------------------------------------------------------------------------------------ *)
+(* Non-vacuity: a history with a timestamp tie decided by the uid, a tag change, a malformed
+   signature, a delete of an absent key, policies with bounded requirements, DoS references by
+   bare name and by namespace/name; the hypotheses hold and every class of answer occurs. *)
+Definition sg (uid : string) (ts : Z) (tag : string) (rv : tfield) : sigobj :=
+  {| so_uid := uid; so_ts := ts; so_valid := true; so_tag := tag; so_rev := rv |}.
+Definition ex_hist : list event :=
+  [ EvUserSig "n1/a" (sg "ab" 100 "t1" (TAt 50));
+    EvUserSig "n1/b" (sg "ac" 100 "t1" TAbsent);            (* same timestamp, greater uid: wins *)
+    EvUserSig "n2/a" (sg "aa" 90 "t2" (TAt 70));
+    EvUserSig "n2/b" {| so_uid := "zz"; so_ts := 1; so_valid := true; so_tag := "t1"; so_rev := TBad |};
+    EvPolicy "n1/p" {| po_valid := true;
+                       po_reqs := Some [ {| rq_tag := Some "t2"; rq_min := TAt 60; rq_max := TAt 80 |} ] |};
+    EvPolicy "n1/q" {| po_valid := true;
+                       po_reqs := Some [ {| rq_tag := Some "t2"; rq_min := TAt 70; rq_max := TAbsent |} ] |};
+    EvDelUserSig "n9/none";
+    EvUserSig "n2/a" (sg "aa" 90 "t1" (TAt 70));            (* tag change: now the oldest of t1 *)
+    EvDosPolicy "n1/dp" {| dp_valid := true |};
+    EvDosPR {| pr_ns := "n1"; pr_name := "r1"; pr_valid := true; pr_pol := "dp"; pr_log := Some "n2/lg" |};
+    EvDosPR {| pr_ns := "n1"; pr_name := "r2"; pr_valid := true; pr_pol := "n1/dp"; pr_log := None |};
+    EvPolicy "n1/a" {| po_valid := true;
+                       po_reqs := Some [ {| rq_tag := Some "t1"; rq_min := TAt 60; rq_max := TAbsent |} ] |} ].
+
+Example C19_nonvacuous_hypotheses : K1_hist ex_hist /\ f21_free (final_objects ex_hist).
+Proof. split; [apply K1_histb_sound|apply f21_freeb_sound]; vm_compute; reflexivity. Qed.
+
+Example C19_nonvacuous_answers :
+  model_answers (run true ex_hist) ["n1/a"; "n1/b"; "n2/a"; "n2/b"; "n1/p"; "n1/q"] [("n1", "r1"); ("n1", "r2"); ("n2", "r1")]
+  = list_ascii_of_string "0NNNMMNNNNNNDD0TNNl0N".
+Proof. vm_compute. reflexivity. Qed.
